@@ -88,16 +88,20 @@ type World struct {
 	tasks  [maxTasks]*Task
 	ntasks int32
 
-	step         int64
-	cur          int
-	policy       int
-	switchDen    int
-	budget       int
-	maxSteps     int
-	truncated    bool
-	Deadlocked   bool
-	progress     int64 // releases that were not re-probes of a gate
-	deadlockMark int64
+	step      int64
+	cur       int
+	policy    int
+	switchDen int
+	budget    int
+	maxSteps  int
+	truncated bool
+	// runtimeChoice: the run went through a state in which the Go runtime picks between several ready select cases at
+	// random (e.g. everything a call does under a context that is already done). Outcomes are still judged, but the
+	// schedule is not a pure function of the tape: excluded from determinism re-checks, replayed with retries.
+	runtimeChoice bool
+	Deadlocked    bool
+	progress      int64 // releases that were not re-probes of a gate
+	deadlockMark  int64
 
 	pointNames   [maxPoints]string
 	npoints      int32
@@ -433,6 +437,9 @@ func (t *Task) Note(format string, args ...any) {
 
 // MarkNontrivial lets a scenario with its own notion of a non-trivial case flag the run; Mix adds to the fingerprint.
 func (w *World) MarkNontrivial() { w.nontrivial = true }
+
+// MarkRuntimeChoice declares that this run contains select statements with several ready cases (see runtimeChoice).
+func (w *World) MarkRuntimeChoice() { w.runtimeChoice = true }
 
 // SetCase names the point of a finite case space this run covered (reported as measured coverage of that space).
 func (w *World) SetCase(c string) { w.caseKey = c }
@@ -790,29 +797,30 @@ func bubbleGoroutines() []stuckG {
 
 // Result of one run.
 type RunResult struct {
-	Violations  []Violation
-	Tape        []uint32
-	Trace       []string
-	Notes       []string
-	Fingerprint uint64
-	Steps       int64
-	Switches    int
-	Overlaps    int64
-	Faults      map[string]int
-	Hits        map[string]int64
-	Truncated   bool
-	SimTime     time.Duration
-	Nontrivial  bool
-	TraceHash   uint64
-	Case        string
-	CaseTotal   int
+	Violations    []Violation
+	Tape          []uint32
+	Trace         []string
+	Notes         []string
+	Fingerprint   uint64
+	Steps         int64
+	Switches      int
+	Overlaps      int64
+	Faults        map[string]int
+	Hits          map[string]int64
+	Truncated     bool
+	SimTime       time.Duration
+	Nontrivial    bool
+	TraceHash     uint64
+	Case          string
+	CaseTotal     int
+	RuntimeChoice bool
 }
 
 func (w *World) result() *RunResult {
 	r := &RunResult{
 		Tape: append([]uint32(nil), w.Tape.Recorded()...), Trace: w.trace, Fingerprint: w.fp, Steps: w.Step(),
 		Switches: w.switches, Overlaps: w.overlaps, Faults: map[string]int{}, Truncated: w.truncated,
-		SimTime: time.Since(w.startTime), Hits: map[string]int64{}, Case: w.caseKey, CaseTotal: w.caseTotal,
+		SimTime: time.Since(w.startTime), Hits: map[string]int64{}, Case: w.caseKey, CaseTotal: w.caseTotal, RuntimeChoice: w.runtimeChoice,
 	}
 	for i := 0; i < int(atomic.LoadInt32(&w.npoints)); i++ {
 		if f, ok := strings.CutPrefix(w.pointNames[i], "fault:"); ok {
